@@ -196,6 +196,12 @@ class Registry:
                     return fc
         return None
 
+    def function_contract(self, name: str, relpath):
+        for fc in self.fns.values():
+            if fc.cls is None and fc.qualname == name and (relpath is None or fc.relpath == relpath) and not fc.source:
+                return fc
+        return None
+
     def axioms_for(self, c: FnContract) -> List[Any]:
         out = []
         for g in ["snoc"] + list(c.spec_modules):
